@@ -40,6 +40,12 @@ def TopkGeFeasible (n k : Nat) (mask kept : Nat → Bool) : Prop :=
 def ToppMass (n : Nat) (q : Nat → K) (kept : Nat → Bool) (p tol : K) : Prop :=
   p ≤ sumN n (fun j => if kept j then q j else 0) + tol
 
+/-- top-p keeps nothing superfluous, ties aside: the actions strictly more likely (under the distribution
+`q` that entered the filter) than a kept action carry less than mass `p` — an action is in the nucleus only
+if the strictly more likely ones do not already reach `p` -/
+def ToppTight (n : Nat) (q : Nat → K) (kept : Nat → Bool) (p tol : K) : Prop :=
+  ∀ j, j < n → kept j = true → sumN n (fun i => if q j < q i then q i else 0) < p + tol
+
 /-- two distributions agree (used for: adding a constant to all logits changes nothing) -/
 def Close (n : Nat) (p p' : Nat → K) (tol : K) : Prop :=
   ∀ j, j < n → p j ≤ p' j + tol ∧ p' j ≤ p j + tol
@@ -64,6 +70,8 @@ instance (n k : Nat) (mask kept : Nat → Bool) : Decidable (TopkGeFeasible n k 
   unfold TopkGeFeasible; infer_instance
 instance (n : Nat) (q : Nat → K) (kept : Nat → Bool) (p tol : K) : Decidable (ToppMass n q kept p tol) := by
   unfold ToppMass; infer_instance
+instance (n : Nat) (q : Nat → K) (kept : Nat → Bool) (p tol : K) : Decidable (ToppTight n q kept p tol) := by
+  unfold ToppTight; infer_instance
 instance (n : Nat) (p p' : Nat → K) (tol : K) : Decidable (Close n p p' tol) := by
   unfold Close; infer_instance
 instance (n : Nat) (mask : Nat → Bool) (p : Nat → K) (a : Nat) : Decidable (GreedyOk n mask p a) := by
